@@ -552,3 +552,66 @@ def purity(chk, repo, rule):
         chk.ob(rule, not state, rel, c, key='no-class-state:' + cname,
                qualname=cname, what='%s has no class-level state' % cname,
                found='; '.join(state))
+
+
+INT_CALLS = {'GetIdx', 'GetBeginAtomIdx', 'GetEndAtomIdx', 'GetNumAtoms',
+             'GetAtomicNum', 'GetFormalCharge', 'GetNumRadicalElectrons',
+             'GetTotalValence', 'GetDegree', 'GetNumBonds', 'NumRings'}
+
+
+def message_concat_types(chk, repo, rule, rels):
+    """str + int in a message under construction is a TypeError raised in
+    place of the documented error.  Every operand of a `+` chain that
+    contains a string constant must be evidently a string: an RDKit accessor
+    that returns an int (GetIdx, Get*AtomIdx, GetNumRadicalElectrons, ...) or
+    len(...) needs str()/.__str__() around it."""
+    n = 0
+    for rel in rels:
+        for node in ast.walk(repo.mod(rel).tree):
+            if not (isinstance(node, ast.BinOp) and isinstance(node.op,
+                                                               ast.Add)):
+                continue
+            par = getattr(node, '_parent', None)
+            if isinstance(par, ast.BinOp) and isinstance(par.op, ast.Add) \
+                    and par.left is node:
+                continue        # not the top of the chain
+            ops = []
+
+            def flat(x):
+                if isinstance(x, ast.BinOp) and isinstance(x.op, ast.Add):
+                    flat(x.left)
+                    flat(x.right)
+                else:
+                    ops.append(x)
+            flat(node)
+            if not any(isinstance(o, ast.Constant) and isinstance(
+                    o.value, str) for o in ops):
+                continue
+            n += 1
+            bad = []
+            for o in ops:
+                if isinstance(o, ast.Call) and isinstance(
+                        o.func, ast.Attribute) and o.func.attr in INT_CALLS:
+                    bad.append(src(o)[:50])
+                if isinstance(o, ast.Call) and dotted(o.func) == 'len':
+                    bad.append(src(o)[:50])
+                if isinstance(o, ast.Constant) and isinstance(
+                        o.value, (int, float)) and not isinstance(
+                        o.value, bool):
+                    bad.append(repr(o.value))
+            if bad:
+                fn = node
+                while fn is not None and not isinstance(fn, ast.FunctionDef):
+                    fn = getattr(fn, '_parent', None)
+                chk.ob(rule, False, rel, node,
+                       key='str-plus-int:%s:%s' % (fn.name if fn else '',
+                                                   bad[0]),
+                       what='a message concatenates str with an int-valued '
+                            'expression (%s): TypeError instead of the '
+                            'documented error' % ', '.join(bad),
+                       found=src(node)[:140])
+    chk.ob(rule, True, rels[0], None, key='message-concat-scan',
+           qualname='<modules>', what='%d string concatenations scanned for '
+                                      'int operands' % n)
+    chk.need(rule, n, 5, 'string concatenations')
+
